@@ -504,7 +504,7 @@ func sources(v ssa.Value, transparent bool) []ssa.Value {
 			if call, ok := x.Tuple.(*ssa.Call); ok && transparent && !IsErrorType(x.Type()) {
 				// (error results stay opaque: which error a caller sees is decided by its own nil tests)
 				if f := TransparentCallee(call); f != nil {
-					for _, r := range Returns(f) {
+					for _, r := range successReturns(f) {
 						if x.Index < len(r.Results) {
 							visit(r.Results[x.Index])
 						}
@@ -1105,7 +1105,7 @@ func ValuesAt(v ssa.Value) []ssa.Value {
 			if call, ok := x.Tuple.(*ssa.Call); ok && !IsErrorType(x.Type()) {
 				// (error results stay opaque: which error a caller sees is decided by its own nil tests)
 				if f := TransparentCallee(call); f != nil {
-					for _, r := range Returns(f) {
+					for _, r := range successReturns(f) {
 						if x.Index < len(r.Results) {
 							visit(r.Results[x.Index])
 						}
@@ -1448,6 +1448,20 @@ func PhiLeaves(v ssa.Value) []PhiLeaf {
 					}
 				}
 			}
+			// one result of a multi-result local closure / unseen helper
+			if ex, isEx := v.(*ssa.Extract); isEx && !seen[v] && !IsErrorType(ex.Type()) {
+				if call, isCall := ex.Tuple.(*ssa.Call); isCall {
+					if f := TransparentCallee(call); f != nil {
+						seen[v] = true
+						for _, r := range successReturns(f) {
+							if ex.Index < len(r.Results) {
+								walk(r.Results[ex.Index], append(append([]CondEdge{}, conds...), GuardingEdges(r)...))
+							}
+						}
+						return
+					}
+				}
+			}
 			// the result of a local closure / unseen helper: its returns, each with the conditions under which it is taken
 			if call, isCall := v.(*ssa.Call); isCall && !seen[v] {
 				if f := TransparentCallee(call); f != nil && f.Signature.Results().Len() == 1 && !IsErrorType(call.Type()) {
@@ -1684,4 +1698,61 @@ func sameQuantity(a, b ssa.Value) bool {
 	}
 	pa, pb := AccessPath(la), AccessPath(lb)
 	return pa != "" && pa == pb && strings.Contains(pa, ".")
+}
+
+// CallsToDeepMatch is CallsToDeep with a predicate on the callee name.
+func CallsToDeepMatch(fn *ssa.Function, match func(name string) bool) []VirtualCall {
+	var names []string
+	seen := map[string]bool{}
+	var collect func(f *ssa.Function, d int)
+	collect = func(f *ssa.Function, d int) {
+		Instrs(f, func(in ssa.Instruction) {
+			if call, ok := in.(ssa.CallInstruction); ok {
+				if n := CalleeName(call); match(n) && !seen[n] {
+					seen[n] = true
+					names = append(names, n)
+				}
+				if c2, ok := in.(*ssa.Call); ok && d > 0 {
+					if h := TransparentCallee(c2); h != nil && h != f {
+						collect(h, d-1)
+					}
+				}
+			}
+		})
+	}
+	collect(fn, 2)
+	if len(names) == 0 {
+		return nil
+	}
+	return CallsToDeep(fn, names...)
+}
+
+// successReturns: the returns of a looked-through callee whose values a caller goes on to use: when the callee's
+// last result is an error, returns that hand back a non-nil error (e.g. `return nil, 0, err`) carry placeholder
+// values the caller discards after its error check, so they are left out.
+func successReturns(f *ssa.Function) []*ssa.Return {
+	rets := Returns(f)
+	res := f.Signature.Results()
+	if res.Len() < 2 || !IsErrorType(res.At(res.Len()-1).Type()) {
+		return rets
+	}
+	var out []*ssa.Return
+	for _, r := range rets {
+		failing := true
+		for _, v := range ValuesAt(r.Results[len(r.Results)-1]) {
+			if IsNilConst(v) {
+				failing = false
+			}
+		}
+		if len(ValuesAt(r.Results[len(r.Results)-1])) == 0 {
+			failing = false
+		}
+		if !failing {
+			out = append(out, r)
+		}
+	}
+	if len(out) == 0 {
+		return rets
+	}
+	return out
 }
